@@ -9,8 +9,10 @@ from .. import canon, gen
 from ..core import call_real
 
 ID = "C03"
-LEAN_MODULE = "CKT.Props.C03PTM"
+LEAN_MODULE = "CKT.Props.C03Gen"
 THEOREMS = [
+    # one step of the model's instruction loop is the translated source (harness/translate/wirecut.py -> Generated/WireCutLoop.lean)
+    "CKT.C03Gen.transformGo_translated",
     "CKT.C03.sum_markerFreq", "CKT.C03.layout_length", "CKT.C03.width_eq", "CKT.C03.layout_at_finalPos",
     "CKT.C03.layout_only_finalPos", "CKT.C03.basePos_succ", "CKT.C03.basePos_mono", "CKT.C03.transformGo_closed",
     "CKT.C03.posAfter_in_range", "CKT.C03.posAfter_injective", "CKT.C03.move_target_in_range",
@@ -132,6 +134,13 @@ def _multi_operand_cases():
         instrs = pre + [W(w), R("rz", 0.4, w), G("c3x", *perm), R("rx", 0.7, perm[2])]
         yield ("transform", {"nq": 4, "qregs": [4], "instrs": instrs, "wrap": bool(j % 2), "cregs": [],
                              "obs": [{"l": "ZXYZ", "p": 0}, {"l": "YZZX", "p": 0}, {"l": "ZZZZ", "p": 0}], "generic": False, "always_oracle": True})
+
+
+def regenerate():
+    """the instruction loop of _transform_cut_wires, translated on every run"""
+    from ..translate import wirecut
+    from ..core import REPO, LEAN
+    wirecut.regenerate(REPO, LEAN)
 
 
 def cases(rng, tier):
